@@ -316,6 +316,22 @@ impl Check for C09 {
             Ok(tr) => tr,
             Err(e) => {
                 let limit = matches!(e, ScriptError::OpCount | ScriptError::StackSize | ScriptError::PushSize | ScriptError::ScriptSize | ScriptError::Policy(_) | ScriptError::SigCount | ScriptError::PubkeyCount | ScriptError::TapscriptValidationWeight);
+                // the 1650-byte scriptSig relay limit is not part of the validation parameters;
+                // the library declares it through within_resource_limits()
+                if matches!(e, ScriptError::Policy("scriptsig-size")) {
+                    let declared_ok = match &lib {
+                        Descriptor::Sh(s) => match s.as_inner() {
+                            ShInner::Ms(ms) => ms.within_resource_limits(),
+                            _ => true,
+                        },
+                        Descriptor::Bare(b2) => b2.as_inner().within_resource_limits(),
+                        _ => true,
+                    };
+                    if !declared_ok {
+                        rep.class("declared-outside-scriptsig-limit");
+                        return Ok(());
+                    }
+                }
                 if limit {
                     return fail(
                         &format!("declared-within-limits/{}/{}", sname, crate::checks::c01::err_kind(&e)),
